@@ -491,6 +491,17 @@ func c11Cases(c *Check) []c11Case {
 	for d := 0; d <= 9; d++ {
 		add(fmt.Sprintf("ident-digit/%d", d), []gtok{mkIdent(fmt.Sprintf("x%d", d)), mkIdent(fmt.Sprintf("a%db", d)), mkIdent(fmt.Sprintf("_%d%d", d, d)), mkIdent(fmt.Sprintf("n1%d", d)), mkNum(fmt.Sprintf("%d", d)), mkNum(fmt.Sprintf("1%d0", d))}, []string{" ", " ", " ", " ", " "})
 	}
+	// one literal body in both quote kinds in one text, in both orders: each is decoded by its own rules
+	for bi, body := range []string{`\t`, `C:\new\temp`, `a\nb`, `\x41\x42`, `%d\n`, `\\`, `q\"q`, `plain`, `\u00e9`, `\101`} {
+		val, err := strconv.Unquote(`"` + body + `"`)
+		if err != nil || strings.Contains(body, "`") {
+			continue
+		}
+		interp, raw := gtok{"string/same-body", `"` + body + `"`, val, lexer.STRING_LITERAL}, mkRaw(body)
+		add(fmt.Sprintf("same-body-both-quotes/%d/interpreted-first", bi), []gtok{interp, mkOp("+"), raw, mkOp("+"), interp}, []string{" ", " ", " ", " "})
+		add(fmt.Sprintf("same-body-both-quotes/%d/raw-first", bi), []gtok{raw, mkOp("+"), interp, mkOp("+"), raw}, []string{" ", " ", " ", " "})
+		add(fmt.Sprintf("same-body-both-quotes/%d/on-two-lines", bi), []gtok{mkIdent("a"), mkOp("="), raw, mkNL(false), mkIdent("b"), mkOp("="), interp}, []string{" ", " ", "", "", " ", " "})
+	}
 	// two block comments with code between, comments spanning lines, rows after multi-line tokens
 	multi := []string{"/* one */", "/* a\nb\nc */", "/**/", "/* * / */", "/*\n*/"}
 	for i, m1 := range multi {
@@ -621,6 +632,22 @@ func checkC11(c *Check) {
 		errTexts[fmt.Sprintf("non-ascii/U+%04X/after-number", r)] = "x := 1" + ch
 		errTexts[fmt.Sprintf("non-ascii/U+%04X/identifier-start", r)] = ch + "s := 250"
 	}
+	// bytes that look like white space to some library functions but are neither blank, tab nor line break of
+	// this grammar: between tokens, at the start, at the end, next to a real blank
+	for _, b := range []byte{0x0b, 0x0c, 0x85, 0xa0, 0x1c, 0x1d, 0x1e, 0x1f, 0x08, 0x07, 0x1b, 0x7f, 0x01} {
+		ch := string([]byte{b})
+		errTexts[fmt.Sprintf("odd-space/%02x/between-tokens", b)] = "x :=" + ch + "1"
+		errTexts[fmt.Sprintf("odd-space/%02x/next-to-blank", b)] = "x := " + ch + " 1"
+		errTexts[fmt.Sprintf("odd-space/%02x/line-start", b)] = "x := 1\n" + ch + "y := 2\n"
+		errTexts[fmt.Sprintf("odd-space/%02x/line-end", b)] = "x := 1" + ch + "\ny := 2\n"
+		errTexts[fmt.Sprintf("odd-space/%02x/last-byte", b)] = "x := 1" + ch
+	}
+	for _, r := range []rune{0x85, 0xa0, 0x1680, 0x2000, 0x2003, 0x2028, 0x2029, 0x202f, 0x205f, 0x3000, 0xfeff} {
+		errTexts[fmt.Sprintf("odd-space/U+%04X/between-tokens", r)] = "x :=" + string(r) + "1"
+		errTexts[fmt.Sprintf("odd-space/U+%04X/line-start", r)] = string(r) + "x := 1\n"
+	}
+	errTexts["odd-space/lone-cr-between-tokens"] = "x :=\r1\n"
+	errTexts["odd-space/lone-cr-line-start"] = "x := 1\n\ry := 2\n"
 	for k, txt := range errTexts {
 		c.Eval(txt, true)
 		_, err := lexer.Tokenize(txt)
